@@ -3,7 +3,10 @@
 
 Extracted mechanically (regex level, see DESIGN.md §1.4):
   * the two inline-asm programs of biguint/addition.rs and biguint/subtraction.rs as
-    `List Instr`, with the operand table (name -> register id, class in/out/inout/lateout)
+    `List Instr`, with the operand table (name -> register id, class in/out/inout/lateout);
+    instruction forms: clc, N:, jnz Nb, setc, inc, dec, lea {d}, [{s} + imm], add/sub {r}, imm,
+    adc/sbb {d}, {s}, and mov load / mov store / adc / sbb with a memory operand
+    `qword ptr [{base} + 8*{idx} + off]` (index and offset optional)
   * the divisor of `size /= D` in front of each asm block
   * the regime thresholds and split rules of `mac3` / `mul3`
   * the big-base threshold of radix output, the Montgomery window and the number of Montgomery
@@ -71,24 +74,54 @@ def parse_asm(fn_src, stale, tag):
         if n not in regs:
             raise KeyError(n)
         return regs[n]
+    def mem(text):
+        """`[{base} + 8*{idx} + off]` with the index and/or the offset optional (any order after the base,
+        `{idx}*8` accepted) -> (base reg, index reg or None, digit offset)"""
+        terms = [t.strip() for t in text.split("+")]
+        mb = re.fullmatch(r"\{(\w+)\}", terms[0])
+        if not mb:
+            raise ValueError("memory operand without base register")
+        base, idx, off = R(mb.group(1)), None, 0
+        for t in terms[1:]:
+            if (mi := re.fullmatch(r"8\s*\*\s*\{(\w+)\}|\{(\w+)\}\s*\*\s*8", t)):
+                if idx is not None:
+                    raise ValueError("two index registers")
+                idx = R(mi.group(1) or mi.group(2))
+            elif re.fullmatch(r"\d+", t):
+                off += int(t)
+            else:
+                raise ValueError("memory operand term " + t)
+        if off % 8:
+            raise ValueError("unaligned offset")
+        return base, idx, off // 8
+    MEM = r"qword ptr \[([^\]]*)\]"
     try:
         for l in lines:
+            l = re.sub(r"\s+", " ", l)
             if l == "clc":
                 prog.append(".clc")
             elif re.fullmatch(r"(\d+):", l):
                 prog.append(".label %s" % l[:-1])
-            elif (m2 := re.fullmatch(r"mov \{(\w+)\}, qword ptr \[\{(\w+)\} \+ 8\*\{(\w+)\}(?: \+ (\d+))?\]", l)):
-                off = int(m2.group(4) or 0)
-                if off % 8:
-                    raise ValueError("unaligned offset")
-                prog.append(".load %d %d %d %d" % (R(m2.group(1)), R(m2.group(2)), R(m2.group(3)), off // 8))
-            elif (m2 := re.fullmatch(r"mov qword ptr \[\{(\w+)\} \+ 8\*\{(\w+)\}(?: \+ (\d+))?\], \{(\w+)\}", l)):
-                off = int(m2.group(3) or 0)
-                if off % 8:
-                    raise ValueError("unaligned offset")
-                prog.append(".store %d %d %d %d" % (R(m2.group(1)), R(m2.group(2)), off // 8, R(m2.group(4))))
+            elif (m2 := re.fullmatch(r"mov \{(\w+)\}, " + MEM, l)):
+                b, i, o = mem(m2.group(2))
+                prog.append(".load %d %d %d %d" % (R(m2.group(1)), b, i, o) if i is not None
+                            else ".loadn %d %d %d" % (R(m2.group(1)), b, o))
+            elif (m2 := re.fullmatch(r"mov " + MEM + r", \{(\w+)\}", l)):
+                b, i, o = mem(m2.group(1))
+                prog.append(".store %d %d %d %d" % (b, i, o, R(m2.group(2))) if i is not None
+                            else ".storen %d %d %d" % (b, o, R(m2.group(2))))
             elif (m2 := re.fullmatch(r"(adc|sbb) \{(\w+)\}, \{(\w+)\}", l)):
                 prog.append(".%s %d %d" % (m2.group(1), R(m2.group(2)), R(m2.group(3))))
+            elif (m2 := re.fullmatch(r"(adc|sbb) \{(\w+)\}, " + MEM, l)):
+                b, i, o = mem(m2.group(3))
+                prog.append(".%sm %d %d %d %d" % (m2.group(1), R(m2.group(2)), b, i, o) if i is not None
+                            else ".%smn %d %d %d" % (m2.group(1), R(m2.group(2)), b, o))
+            elif (m2 := re.fullmatch(r"lea \{(\w+)\}, \[\{(\w+)\}(?: \+ (\d+))?\]", l)):
+                prog.append(".lea %d %d %d" % (R(m2.group(1)), R(m2.group(2)), int(m2.group(3) or 0)))
+            elif (m2 := re.fullmatch(r"(add|sub) \{(\w+)\}, (\d+)", l)):
+                if int(m2.group(3)) >= 2 ** 31:
+                    raise ValueError("immediate too large")
+                prog.append(".%si %d %d" % (m2.group(1), R(m2.group(2)), int(m2.group(3))))
             elif (m2 := re.fullmatch(r"(inc|dec) \{(\w+)\}", l)):
                 prog.append(".%s %d" % (m2.group(1), R(m2.group(2))))
             elif (m2 := re.fullmatch(r"jnz (\d+)b", l)):
@@ -314,7 +347,8 @@ def main():
     notes = []
     for tag in asm:
         for (n, c, k, _) in asm[tag]["operands"]:
-            writes = any(re.match(r"\.(dec|inc) %d$" % asm[tag]["regs"][n], p) for p in asm[tag]["prog"])
+            writes = any(re.match(r"\.(dec|inc) %d$|\.(lea|addi|subi) %d " % (asm[tag]["regs"][n], asm[tag]["regs"][n]), p)
+                         for p in asm[tag]["prog"])
             if c == "in" and writes:
                 notes.append("%s asm: operand `%s` is declared in(reg) but modified by inc/dec" % (tag, n))
     info = {"values": vals, "stale": stale, "notes": notes,
